@@ -3,6 +3,7 @@ package props
 import (
 	"context"
 	"fmt"
+	"math"
 	"strings"
 	"sync"
 	"sync/atomic"
@@ -328,7 +329,9 @@ func runExclusive(c *core.Ctx, keys, callers, perCaller int) *exRun {
 				call := &exCall{key: rng.IntN(keys), style: exStyles[rng.IntN(len(exStyles))], work: "value"}
 				switch call.style {
 				case "CallAfter", "CallAfterAsync", "StartAfter":
-					call.wait = core.Pick(rng, 0, 50*time.Microsecond, 2*time.Millisecond)
+					// (a wait <= 0 is documented as "ignored": that includes the most negative Duration, which is what
+					// deadline.Sub(now) saturates to for an unset deadline)
+					call.wait = core.Pick(rng, 0, 50*time.Microsecond, 2*time.Millisecond, 50*time.Microsecond, 2*time.Millisecond, -1, -time.Hour, time.Duration(math.MinInt64), time.Time{}.Sub(time.Now()))
 				case "Options":
 					call.work = exWorks[rng.IntN(len(exWorks))]
 					call.wait = core.Pick(rng, 0, 0, 50*time.Microsecond, 2*time.Millisecond)
